@@ -112,6 +112,8 @@ def mk_summaries(ctx, K):
 
     return [(r'<dyn Get as Get>::get$', dyn_get), (r'Context::build$', s_build), (r'Context::key$', s_key),
             (r'IndexMap::<.*>::entry$', s_entry), (r'Entry::<.*>::or_default$|Entry::<.*>::or_insert_with', s_or_default),
+            (r'Vec::<.*>::is_empty$|IndexMap::<.*>::is_empty$', s_seq_is_empty), (r'Vec::<.*>::len$|IndexMap::<.*>::len$', s_seq_len), (r'Vec::<.*>::with_capacity$|IndexMap::<.*>::with_capacity$', s_seq_new),
+            (r'IndexMap::<.*>::drain::<|Vec::<.*>::drain::<', s_drain), (r'<IndexMap<.*> as IntoIterator>::into_iter$', s_map_into_iter_val), (r'<Vec<.*> as IntoIterator>::into_iter$', s_iter_val),
             (r'Vec::<.*>::push$', s_seq_push), (r'Vec::<.*>::new$|IndexMap::<.*>::new$', s_seq_new), (r'Vec::<.*>::clear$|IndexMap::<.*>::clear$|HashSet::<.*>::clear$', s_seq_clear),
             (r'<&IndexMap<.*> as IntoIterator>::into_iter$|IndexMap::<.*>::iter$', s_map_iter), (r'<&Vec<.*> as IntoIterator>::into_iter$|impl \[.*\]>::iter$', s_iter_ref),
             (r'as Iterator>::next$', s_iter_next), (r'IndexMap::<.*>::insert$', s_map_insert),
@@ -119,6 +121,24 @@ def mk_summaries(ctx, K):
             (r'Context::new_with_no_context$', s_new_ctx), (r'<Titles as Default>::default$|<processor::Titles as Default>::default$', lambda ex, st, f, a, t: [(st, named(st, 'EMPTY_TITLES', 'Titles'))]),
             (r'HashSet::<.*>::insert$', s_hs_insert), (r'std::mem::take::<', _mem_take),
             (r'<dyn Process as Process>::(process|complete|start)$', s_next)]
+
+
+def s_drain(ex, st, func, args, ty):
+    """drain(..) over the full range: the elements by value (pairs for a map), the container left empty"""
+    c = obj(st, args[0]); items = list(model(st, c)); set_model(st, c, ())
+    out = []
+    for it in items:
+        if isinstance(it, tuple):
+            t = named(st, st.fresh_name('kv'), 'tuple'); st.heap[t.oid][('f', None, 0)] = it[0]; st.heap[t.oid][('f', None, 1)] = it[1]; out.append(t)
+        else: out.append(it)
+    return [(st, seqobj(st, 'Drain', out))]
+
+
+def s_map_into_iter_val(ex, st, func, args, ty):
+    out = []
+    for k_, v_ in model(st, args[0]):
+        t = named(st, st.fresh_name('kv'), 'tuple'); st.heap[t.oid][('f', None, 0)] = k_; st.heap[t.oid][('f', None, 1)] = v_; out.append(t)
+    return [(st, seqobj(st, 'IntoIter', out))]
 
 
 def _mem_take(ex, st, func, args, ty):
@@ -149,6 +169,66 @@ def collectors(ctx):
     fm = run.family('merger.collect', 'process answers Continue and forwards nothing; complete forwards exactly one context holding every row in arrival order; also for k = 0')
     fs = run.family('collector.start', 'Grouper/Merger start() forwards start once with empty titles')
     cands = []
+    try:
+        _collectors_body(ctx, ex, K, fg, fm, fs)
+    finally:
+        for f in (fg, fm, fs):
+            seen = set(); keep = []
+            for c in f.candidates:
+                if c.role in seen: continue
+                seen.add(c.role); keep.append(c)
+            f.candidates = keep
+        run.absorb(ex)
+        replay_collect(ctx, fg.candidates + fm.candidates + fs.candidates)          # whatever was found is replayed even when the analysis of a later path gives up
+
+
+def _judge(ctx, ex, e, stage, k, keys, nx, procs):
+    why = None
+    if len(procs) != 1: return f'complete forwards {len(procs)} contexts'
+    if any(x[1] not in ('process', 'complete') for x in nx): why = 'unexpected successor call'
+    else:
+        outc = obj(e, procs[0][3]); val = obj(e, e.heap[outc.oid].get('value'))
+        payload_kind = 'Object' if stage == 'Grouper' else 'Array'
+        pl = e.heap[val.oid].get(('f', payload_kind, 0))
+        if pl is None: why = 'the forwarded value is not an ' + payload_kind
+        else:
+            rows = [f'row{i}' for i in range(k)]
+            if stage == 'Merger':
+                got = [origin(e, x) for x in model(e, pl)]
+                if got != [f'built:{r}' for r in rows]: why = f'merged rows {got}'
+            else:
+                ents = model(e, pl)
+                def arr(v):
+                    v = obj(e, v)
+                    return model(e, v) if 'model' in e.heap[v.oid] else model(e, e.heap[v.oid][('f', 'Array', 0)])
+                got = [(origin(e, kk), [origin(e, x) for x in arr(vv)]) for kk, vv in ents]
+                strs = [r for r, sh in keys if sh == 'string']
+                # reference under the model-free equivalence: decided per path by the class constraints
+                # group rows by first-seen class representative
+                reps = []; groups = {}
+                conj = []
+                for r in strs:
+                    placed = False
+                    for rep in reps:
+                        same = cls_of('keystr:' + r) == cls_of('keystr:' + rep)
+                        if ex.valid(e, same)[0]:
+                            groups[rep].append(r); placed = True; break
+                        if not ex.valid(e, z3.Not(same))[0]:
+                            placed = None; break
+                    if placed is None: why = 'key equivalence undecided on this path'; break
+                    if not placed: reps.append(r); groups[r] = [r]
+                if why is None:
+                    exp = [('keystr:' + rep, [f'built:{x}' for x in groups[rep]]) for rep in reps]
+                    if got != exp: why = f'groups {got}, expected {exp}'
+        rd = ex.discr(e, obj(e, e.ret)).t; nrd = ex.discr(e, obj(e, procs[0][4])).t
+        if why is None and not ex.valid(e, z3.Implies(nrd == 1, rd == 1))[0]: why = 'a failing write of the collection is swallowed'
+        if why is None and not ex.valid(e, z3.Implies(nrd == 0, rd == 0) if not [x for x in nx if x[1] == 'complete'] else z3.BoolVal(True))[0]: why = 'complete fails although the successor succeeded'
+    return why
+
+
+def _collectors_body(ctx, ex, K, fg, fm, fs):
+    run = ctx.run
+    from .mirsym import Unmodelled
     for stage, prefix, sname, fam in (('Grouper', r'^grouper::<impl at [^>]*>::', 'GrouperProcess', fg), ('Merger', r'^merger::<impl at [^>]*>::', 'Merger', fm)):
         F_PROC = ex.find(prefix + 'process$'); F_COMP = ex.find(prefix + 'complete$'); F_START = ex.find(prefix + 'start$')
         flds = ctx.structs[sname]
@@ -172,45 +252,11 @@ def collectors(ctx):
                         c = Candidate(fam.name, f'complete-{e.status}', f'{sname}::complete ends as {e.status} {e.notes}', {'stage': stage, 'k': k}, unmodelled=hav); fam.candidates.append(c); continue
                     procs = [x for x in nx if x[1] == 'process']
                     why = None
-                    if len(procs) != 1: why = f'complete forwards {len(procs)} contexts'
-                    elif any(x[1] not in ('process', 'complete') for x in nx): why = 'unexpected successor call'
-                    else:
-                        outc = obj(e, procs[0][3]); val = obj(e, e.heap[outc.oid].get('value'))
-                        payload_kind = 'Object' if stage == 'Grouper' else 'Array'
-                        pl = e.heap[val.oid].get(('f', payload_kind, 0))
-                        if pl is None: why = 'the forwarded value is not an ' + payload_kind
-                        else:
-                            rows = [f'row{i}' for i in range(k)]
-                            if stage == 'Merger':
-                                got = [origin(e, x) for x in model(e, pl)]
-                                if got != [f'built:{r}' for r in rows]: why = f'merged rows {got}'
-                            else:
-                                ents = model(e, pl)
-                                def arr(v):
-                                    v = obj(e, v)
-                                    return model(e, v) if 'model' in e.heap[v.oid] else model(e, e.heap[v.oid][('f', 'Array', 0)])
-                                got = [(origin(e, kk), [origin(e, x) for x in arr(vv)]) for kk, vv in ents]
-                                strs = [r for r, sh in keys if sh == 'string']
-                                # reference under the model-free equivalence: decided per path by the class constraints
-                                # group rows by first-seen class representative
-                                reps = []; groups = {}
-                                conj = []
-                                for r in strs:
-                                    placed = False
-                                    for rep in reps:
-                                        same = cls_of('keystr:' + r) == cls_of('keystr:' + rep)
-                                        if ex.valid(e, same)[0]:
-                                            groups[rep].append(r); placed = True; break
-                                        if not ex.valid(e, z3.Not(same))[0]:
-                                            placed = None; break
-                                    if placed is None: why = 'key equivalence undecided on this path'; break
-                                    if not placed: reps.append(r); groups[r] = [r]
-                                if why is None:
-                                    exp = [('keystr:' + rep, [f'built:{x}' for x in groups[rep]]) for rep in reps]
-                                    if got != exp: why = f'groups {got}, expected {exp}'
-                        rd = ex.discr(e, obj(e, e.ret)).t; nrd = ex.discr(e, obj(e, procs[0][4])).t
-                        if why is None and not ex.valid(e, z3.Implies(nrd == 1, rd == 1))[0]: why = 'a failing write of the collection is swallowed'
-                        if why is None and not ex.valid(e, z3.Implies(nrd == 0, rd == 0) if not [x for x in nx if x[1] == 'complete'] else z3.BoolVal(True))[0]: why = 'complete fails although the successor succeeded'
+                    try:
+                        why = _judge(ctx, ex, e, stage, k, keys, nx, procs)
+                    except (Unmodelled, KeyError, AttributeError, TypeError) as exc:
+                        why = f'the forwarded collection cannot be read back ({type(exc).__name__}: {str(exc)[:80]})'; hav = hav or 'unmodelled container operation'
+                    if False: pass
                     if why is None:
                         fam.discharged += 1
                         if k >= 2: fam.add_sample({'stage': stage, 'k': k, 'keys': keys, 'verdict': 'one collection, as specified'})
@@ -229,14 +275,6 @@ def collectors(ctx):
                 ex.valid(d, ex.discr(d, obj(d, d.ret)).t == ex.discr(d, obj(d, nx[0][4])).t)[0]
             if good: fs.discharged += 1
             else: fs.candidates.append(Candidate(fs.name, f'{stage}-start', f'{sname}::start: {[(x[1], origin(d, x[3]) if x[3] is not None else None) for x in nx]} ({d.status})', {'stage': stage}, unmodelled=(d.havoc or [None])[0]))
-    for f in (fg, fm, fs):
-        seen = set(); keep = []
-        for c in f.candidates:
-            if c.role in seen: continue
-            seen.add(c.role); keep.append(c)
-        f.candidates = keep
-    run.absorb(ex)
-    replay_collect(ctx, fg.candidates + fm.candidates + fs.candidates)
 
 
 def replay_collect(ctx, cands):
